@@ -13,3 +13,7 @@ open Martian.Props.C16
 #print axioms logged_content_is_base64
 #print axioms late_invalid_byte_is_not_text
 #print axioms late_invalid_byte_is_base64
+#print axioms wire_head_is_wire_fields
+#print axioms header_list_is_what_the_wire_carries
+#print axioms ordinary_fields_are_the_maps
+#print axioms absent_field_lists_the_maps_lines
